@@ -306,7 +306,8 @@ theorem map_zip_fst {α β γ : Type} (g : α → γ) (as : List α) (bs : List 
 /-- the note `from_note_array` builds from one row, when the row is one a note array can hold -/
 def rebuilt (f : ArrFields) (id : String) (r : Row) : PNote :=
   ⟨some id, r.pitch, r.pitch, r.onsetSec, r.onsetSec + r.durSec, r.onsetSec + r.durSec, r.vel,
-    if f.track then r.track else 0, if f.chan then r.chan else 1, none, none⟩
+    if f.track then r.track else Gen.C14.fromArrayTrackDefault,
+    if f.chan then r.chan else Gen.C14.fromArrayChanDefault, none, none⟩
 
 theorem init_rawOfRow (f : ArrFields) (id : String) (r : Row) (hp : 0 ≤ r.pitch ∧ r.pitch ≤ 127)
     (hv : 0 ≤ r.vel ∧ r.vel ≤ 127) (hon : 0 ≤ r.onsetSec) (hd : 0 ≤ r.durSec) :
